@@ -151,7 +151,8 @@ def unquote(word):
     return word
 
 
-def parse_keywords(lines, multiline_values=True, key_hints=None):
+def parse_keywords(lines, multiline_values=True, key_hints=None,
+                   unquote_values=True):
     """
     Utility method to parse name=value pairs (GETINFO etc). Takes a
     string with newline-separated lines and expects at most one = sign
@@ -163,7 +164,18 @@ def parse_keywords(lines, multiline_values=True, key_hints=None):
         produces one key, 'Foo', with value 'bar\nBar' -- set to
         False, there would be two keys: 'Foo' with value 'bar' and
         'Bar' with value DEFAULT_VALUE.
+
+    :param unquote_values:
+        By default a value enclosed in single or double quotes loses
+        them (PROTOCOLINFO-style keywords). GETINFO and GETCONF
+        values are not quoted by Tor, so those pass False and get
+        every value back verbatim.
     """
+    if unquote_values:
+        maybe_unquote = unquote
+    else:
+        def maybe_unquote(word):
+            return word
 
     rtn = {}
     key = None
@@ -181,11 +193,11 @@ def parse_keywords(lines, multiline_values=True, key_hints=None):
             if key:
                 if key in rtn:
                     if isinstance(rtn[key], list):
-                        rtn[key].append(unquote(value))
+                        rtn[key].append(maybe_unquote(value))
                     else:
-                        rtn[key] = [rtn[key], unquote(value)]
+                        rtn[key] = [rtn[key], maybe_unquote(value)]
                 else:
-                    rtn[key] = unquote(value)
+                    rtn[key] = maybe_unquote(value)
             (key, value) = line.split('=', 1)
 
         else:
@@ -203,11 +215,11 @@ def parse_keywords(lines, multiline_values=True, key_hints=None):
     if key:
         if key in rtn:
             if isinstance(rtn[key], list):
-                rtn[key].append(unquote(value))
+                rtn[key].append(maybe_unquote(value))
             else:
-                rtn[key] = [rtn[key], unquote(value)]
+                rtn[key] = [rtn[key], maybe_unquote(value)]
         else:
-            rtn[key] = unquote(value)
+            rtn[key] = maybe_unquote(value)
     return rtn
 
 
@@ -422,7 +434,7 @@ class TorControlProtocol(LineOnlyReceiver):
             into a dict, you can use get_info_raw instead.
         """
         d = self.get_info_raw(*args)
-        d.addCallback(parse_keywords, key_hints=args)
+        d.addCallback(parse_keywords, key_hints=args, unquote_values=False)
         return d
 
     def get_info_single(self, key):
@@ -438,7 +450,7 @@ class TorControlProtocol(LineOnlyReceiver):
             key (a string).
         """
         d = self.get_info_raw(key)
-        d.addCallback(parse_keywords, key_hints=[key])
+        d.addCallback(parse_keywords, key_hints=[key], unquote_values=False)
         d.addCallback(lambda values: values[key])
         return d
 
@@ -466,7 +478,7 @@ class TorControlProtocol(LineOnlyReceiver):
         """
 
         d = self.queue_command('GETCONF %s' % ' '.join(args))
-        d.addCallback(parse_keywords).addErrback(log.err)
+        d.addCallback(parse_keywords, unquote_values=False).addErrback(log.err)
         return d
 
     def get_conf_single(self, key):
@@ -488,7 +500,7 @@ class TorControlProtocol(LineOnlyReceiver):
         """
 
         d = self.queue_command('GETCONF {}'.format(key))
-        d.addCallback(parse_keywords).addErrback(log.err)
+        d.addCallback(parse_keywords, unquote_values=False).addErrback(log.err)
         # d.addCallback(lambda kw: kw[key])  # extract key we asked for initially
         # ...but, the key can have a different string-name because Tor
         # will return *it's* representation (e.g. can ask for
